@@ -83,10 +83,9 @@ class DirectiveDef:
 
 
 BUILTIN_DIRECTIVES = (
-    DirectiveDef("deprecated", (ArgDef("reason", ("named", "String"), doc.StrV("Deprecated")),),
+    DirectiveDef("deprecated", (ArgDef("reason", ("named", "String"), doc.StrV("No longer supported")),),
                  ("FIELD_DEFINITION", "ENUM_VALUE")),
     DirectiveDef("nonIntrospectable", (), ("FIELD_DEFINITION", "SCHEMA")),
-    DirectiveDef("non_introspectable", (), ("FIELD_DEFINITION", "SCHEMA")),
     DirectiveDef("skip", (ArgDef("if", ("nn", ("named", "Boolean"))),), ("FIELD", "FRAGMENT_SPREAD", "INLINE_FRAGMENT")),
     DirectiveDef("include", (ArgDef("if", ("nn", ("named", "Boolean"))),),
                  ("FIELD", "FRAGMENT_SPREAD", "INLINE_FRAGMENT")),
